@@ -1,7 +1,7 @@
 (* Properties/C18.v -- Planning agrees with encoding (the parts that are theorems: shape of the plan, a plan exists whenever the encoder succeeds). *)
 From Coq Require Import Arith NArith List Bool.
 From DM Require Import Generated.Symbols Generated.ModeTables Model.Outcome Model.SymbolList Model.Planner Model.PlannerRun
-  Model.Enc Model.Api Proofs.PlanShape.
+  Model.Enc Model.Api Proofs.PlanShape Proofs.PlanAlign.
 Import ListNotations.
 Local Open Scope N_scope.
 
@@ -51,6 +51,20 @@ Proof.
   intros _. exists p, st. reflexivity.
 Qed.
 Print Assumptions C18_plan_exists.
+
+(* what every plan guarantees to the ASCII and Base256 encoders, for every non-empty input, symbol list, mode set (all 64), start
+   mode and every total sub-list sort: the plan is not empty, its positions strictly decrease, consecutive entries name different
+   modes (except the final entry at position 0), an ASCII run ends where the greedy ASCII encodation of the characters from its
+   start has an item boundary (`aligned`: the encoder's digit pairs never straddle a planned switch), a Base256 run has at most
+   1556 bytes and at most 1555 if it is left before the end of the data; and the encoder, which starts in ASCII, can reach the
+   first planned position *)
+Theorem C18_plan_aligned : forall sl data sorter written mode modes res st,
+  (forall k l, exists l', sorter k l = Ok l' /\ incl l' l) -> data <> [] ->
+  optimize sl sorter data written mode modes = Ok (Some res, st) ->
+  res <> [] /\ (runs_ok data res /\ alt_ok res) /\
+  match res with (p0, _) :: _ => p0 <= N.of_nat (length data) /\ aligned data (N.to_nat p0) | [] => True end.
+Proof. intros sl data sorter written mode modes res st HS ND H. exact (optimize_align sl data sorter HS written mode modes res st ND H). Qed.
+Print Assumptions C18_plan_aligned.
 
 (* non-vacuity *)
 Example C18_example :
